@@ -141,7 +141,7 @@ package roundrobin
 //@   ensures weights_kept: forall s *server :: allocated(s) ==> s.weight == old(s.weight)
 
 //@ func (*RoundRobin).UpsertServer
-//@   props C01 C02
+//@   props C01 C02 C11
 //@   atomic r.mutex
 //@   modifies r.servers, r.index, r.currentWeight, elems(r.servers), server.weight
 //@   ensures nil_url: u == nil ==> result != nil && len(r.servers) == old(len(r.servers)) && r.index == old(r.index) && r.currentWeight == old(r.currentWeight)
